@@ -619,12 +619,16 @@ class PythonMPContext(object):
         ctx.trap_complex = False
 
     def _set_prec(ctx, n):
-        ctx._prec = ctx._prec_rounding[0] = max(1, int(n))
-        ctx._dps = prec_to_dps(n)
+        # Convert before storing anything: a failing conversion must
+        # leave prec and dps as they were
+        prec, dps = max(1, int(n)), prec_to_dps(n)
+        ctx._prec = ctx._prec_rounding[0] = prec
+        ctx._dps = dps
 
     def _set_dps(ctx, n):
-        ctx._prec = ctx._prec_rounding[0] = dps_to_prec(n)
-        ctx._dps = max(1, int(n))
+        prec, dps = dps_to_prec(n), max(1, int(n))
+        ctx._prec = ctx._prec_rounding[0] = prec
+        ctx._dps = dps
 
     prec = property(lambda ctx: ctx._prec, _set_prec)
     dps = property(lambda ctx: ctx._dps, _set_dps)
